@@ -214,6 +214,13 @@ def check(ctx):
         ctx.check(replay_ok, "C02.c", "%s:replay-present" % fk, R.loc(rb),
                   "detached queue is replayed with an in-order retain", "no in-order replay (VecDeque::retain) of the detached queue found")
 
+    # no early way out of the run path: after the callback ran, every path reaches the replay (queue.remove) and the root test
+    if run_blocks and removes:
+        w = lib.path_to_return_avoiding(R, [lib.call_target(R, r) for r in run_blocks], removes)
+        ctx.check(w is None, "C02.c", "%s:run-path-always-replays" % fk, R.loc(run_blocks[0]),
+                  "every path from callback.run to return passes the replay of postponed commands",
+                  "a path returns after the callback ran without replaying the commands that were postponed for it (they would be discarded or never aborted)",
+                  lib.render_path(R, w) if w else None)
     # root discard loop
     root_eq = [(b, eq_t) for (b, cv, eq_t, ne_t, _) in idx_checks if eq_t is not None and any(R.dominates(rb, b) for rb in run_blocks)]
     if ctx.floor("C02.c", len(root_eq), 1, "root test (counter == 0) after the run"):
@@ -265,6 +272,13 @@ def check(ctx):
     for (b, i, st) in incs:
         ctx.check(R.dominates(some_t, b) and any(path_hits(R, b, rb) for rb in run_blocks), "C02.c", "%s:counter-incremented-on-run-path-only" % fk, R.loc(b, i),
                   "counter increment is on the run path", "tree counter is modified outside the run path")
+    root_tests = [b for (b, cv, eq_t, ne_t, _) in idx_checks if any(R.dominates(rb, b) for rb in run_blocks)]
+    for (b, i, st) in incs:
+        w = lib.path_to_return_avoiding(R, [b], root_tests) if root_tests else [b]
+        ctx.check(bool(root_tests) and w is None, "C02.c", "%s:counter-increment-always-reaches-root-test" % fk, R.loc(b, i),
+                  "every path from the counter increment to return passes the root test (whose zero arm discards leftovers and resets the counter)",
+                  "a path increments the tree counter and returns without reaching the root test: at the root the leftovers are never discarded and the counter is never reset",
+                  lib.render_path(R, w) if w and len(w) > 1 else None)
     ctx.check(len(incs) == 1, "C02.c", "%s:one-counter-increment" % fk, "%s:%d" % (R.file, R.line),
               "exactly one non-constant write to the counter", "%d non-constant writes to the tree counter" % len(incs))
 
